@@ -13,7 +13,7 @@ RULE = ("Vocabulary: 3 owner names x 3 spellings, 8 record kinds + questions, cl
         "None/1/2, alias/server in 3 spellings, SRV priority/weight/port, TXT bytes, HINFO cpu/os incl. case, NSEC next name incl. "
         "case and rdtypes order/content). ALL ordered pairs are evaluated (thorough; quick: every pair whose independent canonical "
         "keys are equal plus a 1-in-k stratified sample of the rest). Expected identity is an independent canonical key; monitors: "
-        "== agrees, equal => equal hash, symmetry, != is the negation, set / DNSRRSet.lookup / DNSRRSet.suppresses / "
+        "== agrees, equal => equal hash, symmetry, != is the negation, set / DNSRRSet.lookup / DNSRRSet.suppresses / DNSRecord.suppressed_by / DNSOutgoing.add_answer / "
         "DNSCache.async_get_unique / DNSCache.get membership agree. Distinct = distinct (kind_a, kind_b, differing-field, "
         "expected) classes.")
 ASSUMPTIONS = ["identity code has no size-dependent branches, so a bounded vocabulary is representative"]
@@ -120,6 +120,19 @@ def behaviour(d: Any, cachemod: Any, a: Any, b: Any, exp: bool, res: Result, rep
     want_sup = exp and a.ttl > b.ttl / 2
     if sup != want_sup:
         res.violation("c20.behaviour", "rrset_suppresses", "suppresses=%s expected %s: a=%r b=%r" % (sup, want_sup, a, b), sig, replay)
+    # the record-side spelling of the same rule (public API: DNSRecord.suppressed_by, DNSOutgoing.add_answer)
+    class _Msg:
+        def answers(self) -> List[Any]:
+            return [a]
+    sb = b.suppressed_by(_Msg())
+    if sb != want_sup:
+        res.violation("c20.behaviour", "record_suppressed_by", "b.suppressed_by(message listing a)=%s expected %s: a=%r b=%r" % (sb, want_sup, a, b), sig, replay)
+    from zeroconf._protocol.outgoing import DNSOutgoing
+    o = DNSOutgoing(0x8400)
+    o.add_answer(_Msg(), b)
+    if (len(o.answers) == 0) != want_sup:
+        res.violation("c20.behaviour", "add_answer_suppression", "DNSOutgoing.add_answer(message listing a, b) kept %d answer(s), suppression expected %s: a=%r b=%r" % (
+            len(o.answers), want_sup, a, b), sig, replay)
     if (b in rr.lookup_set()) != exp:
         res.violation("c20.behaviour", "rrset_lookup_set", "lookup_set membership wrong: a=%r b=%r" % (a, b), sig, replay)
     cache = cachemod.DNSCache()
